@@ -22,7 +22,8 @@ ASSUMPTIONS = [
     "RouterOS: a block is a section (its row is one path word), leaves live under sections (a leaf outside every section does not exist in RouterOS exports and is outside the domain)",
 ]
 EXHAUSTIVE = {"quick": True, "thorough": True}
-FLOORS = {"quick": {"roundtrips": 20000, "vendors": 14, "fixpoints": 20000}, "thorough": {"roundtrips": 400000, "vendors": 14, "fixpoints": 400000}}
+FLOORS = {"quick": {"roundtrips": 20000, "vendors": 14, "fixpoints": 20000, "custom_indent_roundtrips": 5000, "device_texts": 1500, "annotations_written": 1500},
+          "thorough": {"roundtrips": 400000, "vendors": 14, "fixpoints": 400000, "custom_indent_roundtrips": 80000, "device_texts": 25000, "annotations_written": 25000}}
 WORDS = ["a", "b1", "Eth-Trunk1", "10.0.0.1/24", "x.y", "k=v", "q_1", "peer", "description", "1", "ge-0/0/1", "descr:foo", "100:1"]
 BRACE = {"juniper", "ribbon", "nokia"}
 KNOWN = {
@@ -117,17 +118,25 @@ def in_domain(vname, tree, top=True):
     return True
 
 
-def roundtrip(vname, tree, cls, acc):
+INDENTS = ["\t", " ", "    ", "\t\t"]
+
+
+def roundtrip(vname, tree, cls, acc, indent=None):
+    """indent: render with make_formatter(indent=...) (what `annet gen --indent` does); the text is read back by the DEFAULT formatter"""
     from annet.annlib.tabparser import parse_to_tree, ParserError
     from vf import env
-    fmt = env.vendors()[vname].make_formatter()
+    rd = env.vendors()[vname].make_formatter()
+    fmt = rd if indent is None else env.vendors()[vname].make_formatter(indent=indent)
     w = {"vendor": vname, "class": cls, "tree": tree}
+    if indent is not None:
+        w["indent"] = indent
+        acc.count("custom_indent_roundtrips")
     acc.count("roundtrips")
     acc.case([vname, tree], nontrivial=tdepth(unplain(tree)) >= 2)
     key_known = KNOWN.get(cls)
     try:
         s = fmt.join(unplain(tree))
-        t2 = plain(parse_to_tree(s, fmt.split))
+        t2 = plain(parse_to_tree(s, rd.split))
     except ParserError as e:
         acc.violation(key_known or "C04/%s/parse-error" % vname, WHAT.get(key_known, "text rendered from a tree of the vendor's domain is refused by the vendor's own parser"),
                       dict(w, error=str(e)[:200]))
@@ -149,6 +158,84 @@ def roundtrip(vname, tree, cls, acc):
         acc.violation(key_known or "C04/%s/not-a-fixed-point" % vname, "re-rendering a parsed config and parsing again is not a fixed point", dict(w, text=s.split("\n")[:40], text2=s2.split("\n")[:40]))
 
 
+def brace_device_text(rng, tree, style, annotate=0.25):
+    """what `show configuration` prints (style 'device': `;`, `; ## SECRET-DATA`) or what a generator returns (style 'plain');
+    /* annotations */ in front of some nested statements. -> (text, [(path_of_annotated_row, comment_text)])"""
+    lines, notes = [], []
+
+    def emit(nodes, depth, path):
+        ind = "    " * depth
+        for row, ch in nodes:
+            if depth >= 1 and rng.random() < annotate:
+                c = " ".join(rng.choice(["rotated", "noc", "2024-05", "mgmt only", "x"]) for _ in range(rng.randint(1, 2)))
+                lines.append("%s/* %s */" % (ind, c))
+                notes.append((list(path + (row,)), c))
+            if ch:
+                lines.append("%s%s {" % (ind, row))
+                emit(ch, depth + 1, path + (row,))
+                lines.append("%s}" % ind)
+            elif style == "device":
+                lines.append("%s%s;%s" % (ind, row, " ## SECRET-DATA" if rng.random() < 0.2 else ""))
+            else:
+                lines.append("%s%s" % (ind, row))
+    emit(tree, 0, ())
+    return "\n".join(lines), notes
+
+
+def strip_annotations(t):
+    return [[r, strip_annotations(c)] for r, c in t if not r.startswith("/*")]
+
+
+def annotations_of(t, fmt, path=()):
+    out = []
+    rows = [r for r, c in t]
+    for i, (r, c) in enumerate(t):
+        if r.startswith("/*"):
+            try:
+                cm = fmt.Comment.loads(r)
+                out.append((list(path), cm.row, cm.comment, rows[i + 1] if i + 1 < len(rows) else None))
+            except Exception as e:
+                out.append((list(path), "UNREADABLE %r" % e, r, None))
+        out += annotations_of(c, fmt, path + (r,))
+    return out
+
+
+def device_text_case(vname, tree, sub, acc):
+    """a device / generator text with annotations: the parsed tree holds the statements unchanged, every annotation sits in
+    front of the statement it annotates and remembers it, and render -> parse is a fixed point"""
+    from annet.annlib.tabparser import parse_to_tree
+    from vf import env
+    fmt = env.vendors()[vname].make_formatter()
+    rng = random.Random(sub)
+    style = "plain" if vname == "nokia" else rng.choice(["device", "device", "plain"])
+    text, notes = brace_device_text(rng, tree, style)
+    w = {"vendor": vname, "class": "brace-device-text", "tree": tree, "sub": sub, "text": text.split("\n")[:60], "style": style}
+    acc.count("device_texts")
+    acc.count("annotations_written", len(notes))
+    acc.case(["device-text", vname, text], nontrivial=bool(notes))
+    try:
+        t1 = plain(parse_to_tree(text, fmt.split))
+        s = fmt.join(unplain(t1))
+        t2 = plain(parse_to_tree(s, fmt.split))
+        s2 = fmt.join(unplain(t2))
+    except Exception as e:
+        acc.violation("C04/%s/device-text-exception-%s" % (vname, type(e).__name__), "parsing / re-rendering a device text raised", dict(w, error=repr(e)[:200]))
+        return
+    if strip_annotations(t1) != tree:
+        acc.violation("C04/%s/device-text-statements-changed" % vname, "parsing a device text does not give its statements (rows, nesting, order)", dict(w, parsed=t1))
+        return
+    got = annotations_of(t1, fmt)
+    want = [(p[:-1], " ".join(x.strip("\"'") for x in p[-1].split(" ")), c, p[-1]) for p, c in notes]
+    if [(a, b, c, d) for a, b, c, d in got] != [(a, b, c, d) for a, b, c, d in want]:
+        acc.violation("C04/%s/annotation-detached" % vname, "an annotation is not kept in front of the statement it annotates / does not remember that statement",
+                      dict(w, got=[list(x) for x in got][:6], expected=[list(x) for x in want][:6]))
+        return
+    acc.count("fixpoints")
+    if t2 != t1 or s2 != s:
+        acc.violation("C04/%s/device-text-not-a-fixed-point" % vname, "re-rendering a parsed device config and parsing again is not a fixed point",
+                      dict(w, parsed=t1, rendered=s.split("\n")[:60], parsed_again=t2))
+
+
 def run_vendor(spec, acc):
     vname, tier = spec["vendor"], spec["tier"]
     acc.count("vendors")
@@ -165,6 +252,8 @@ def run_vendor(spec, acc):
                 roundtrip(vname, t, "routeros-nested" if tdepth(unplain(t)) >= 3 else "routeros-depth1", acc)
             else:
                 roundtrip(vname, ros_tree(rng, True, False), "routeros-nested", acc)
+            if j % 4 == 0:
+                roundtrip(vname, ros_tree(rng, True, False), "routeros-nested", acc, indent=INDENTS[(j // 4) % len(INDENTS)])
         acc.sample({"vendor": vname, "tree": ros_tree(rng, True, False)})
         return
     maxn = 4 if tier == "quick" else 5
@@ -178,8 +267,15 @@ def run_vendor(spec, acc):
         if not in_domain(vname, t):
             continue
         roundtrip(vname, t, "plain", acc)
+        if j % 4 == 0:
+            roundtrip(vname, t, "plain", acc, indent=INDENTS[(j // 4) % len(INDENTS)])
         if j < 1:
             acc.sample({"vendor": vname, "tree": t})
+    if vname in BRACE:
+        for j in range(600 if tier == "quick" else 10000):
+            t = random_tree(rng, maxd=4)
+            if in_domain(vname, t):
+                device_text_case(vname, t, rng.randrange(1 << 48), acc)
     if vname == "nokia":
         # a device text wraps the configuration in `configure { ... }`, possibly followed by other top-level blocks: the wrapper is transparent
         from annet.annlib.tabparser import parse_to_tree
@@ -216,6 +312,9 @@ def run_vendor(spec, acc):
 def run_shard(spec, acc):
     if spec["mode"] == "replay":
         w = spec["witness"]
-        roundtrip(w["vendor"], w["tree"], w.get("class", "plain"), acc)
+        if w.get("class") == "brace-device-text":
+            device_text_case(w["vendor"], w["tree"], w["sub"], acc)
+        else:
+            roundtrip(w["vendor"], w["tree"], w.get("class", "plain"), acc, indent=w.get("indent"))
         return
     run_vendor(spec, acc)
